@@ -187,10 +187,14 @@ Configure(r)    == rule' = r /\ Env /\ UNCHANGED <<cache, fileM, up, clock, log>
 SetThreshold(r) == r # rule /\ Configure(r)
 UpstreamFail    == up /\ up' = FALSE /\ Env /\ UNCHANGED <<cache, rule, fileM, clock, log>>
 UpstreamRecover == ~up /\ up' = TRUE /\ Env /\ UNCHANGED <<cache, rule, fileM, clock, log>>
+\* a tile is deleted behind the back of the tile manager (cleanup, TileManager.remove_tile_coords)
+RemoveTile(t)   == /\ cache[t] # Absent /\ cache' = [cache EXCEPT ![t] = Absent] /\ Env
+                   /\ UNCHANGED <<rule, fileM, up, clock, log>>
 
 SeqsOf(S) == {q \in UNION {[1 .. k -> S] : k \in 1 .. Cardinality(S)} : \A i, j \in 1 .. Len(q) : i # j => q[i] # q[j]}
 
-Init == /\ cache = [t \in Tiles |-> Absent] /\ rule = NoRule /\ fileM = 0 /\ up = TRUE /\ clock = 2
+\* the threshold file was written half a second after the epoch (a fractional mtime), now is second 1
+Init == /\ cache = [t \in Tiles |-> Absent] /\ rule = NoRule /\ fileM = 1 /\ up = TRUE /\ clock = 2
         /\ log = <<>> /\ reply = NoReply /\ steps = 0
 
 Next ==
@@ -200,6 +204,7 @@ Next ==
   \/ TouchThresholdFile
   \/ \E r \in Rules : SetThreshold(r)
   \/ UpstreamFail \/ UpstreamRecover
+  \/ \E t \in Tiles : RemoveTile(t)
 
 Spec == Init /\ [][Next]_vars
 
@@ -211,7 +216,8 @@ TypeOK ==
   /\ \A i \in 1 .. Len(log) : log[i].ok \in BOOLEAN
 
 \* tiles of one meta tile are written together
-UnitUniform == Path = "meta" => \A t1, t2 \in Tiles : MetaOf[t1] = MetaOf[t2] => cache[t1] = cache[t2]
+UnitUniform == Path = "meta" => \A t1, t2 \in Tiles :
+                  (MetaOf[t1] = MetaOf[t2] /\ cache[t1] # Absent /\ cache[t2] # Absent) => cache[t1] = cache[t2]
 
 \* the action names tell the outcome
 OutcomeOK ==
@@ -259,11 +265,12 @@ ServeFreshNoUpstream ==
             /\ \A k \in 1 .. Len(reply'.tiles) : reply'.served[k] = cache[reply'.tiles[k]].v
 
 \* (c) a refresh that fails does not destroy the old tile
+ByTheCode == reply'.op \in {"request", "seed"}        \* (not an action of the environment)
 FailedRefreshKeepsOld ==
   /\ LogGrows
-  /\ \A t \in Tiles : cache[t] # Absent => cache'[t] # Absent
-  /\ \A t \in Tiles : cache'[t] # cache[t] => \E i \in NewIdx : log'[i].u = Unit(t) /\ log'[i].ok
-  /\ ~up => cache' = cache /\ \A i \in NewIdx : ~log'[i].ok
+  /\ ByTheCode => \A t \in Tiles : cache[t] # Absent => cache'[t] # Absent
+  /\ ByTheCode => \A t \in Tiles : cache'[t] # cache[t] => \E i \in NewIdx : log'[i].u = Unit(t) /\ log'[i].ok
+  /\ (ByTheCode /\ ~up) => cache' = cache /\ \A i \in NewIdx : ~log'[i].ok
   /\ (reply'.op = "request" /\ ~up /\ Path = "single" /\ \A t \in ReqTiles : cache[t] # Absent) =>
         /\ reply'.kind = "ok"
         /\ \A k \in 1 .. Len(reply'.tiles) : reply'.served[k] = cache[reply'.tiles[k]].v
